@@ -62,7 +62,8 @@ def run(ctx):
                 "non-trivial = an assignment triggering >= 2 tasks; distinct by (history prefix)")
     ctx.scale_if_changed()
     proof_ok = vlib.standard_proof_part(ctx, "props/C02.v", extra_targets=["run/RunManager.vo", "proofs/TasksSrc.vo", "proofs/TasksSrcData.vo", "proofs/TasksSrcRefresh.vo"], translators=["tasks"])
-    cases = [fan_case(3, 3), fan_case(6, 2), cyc_case(3), cyc_case(6)]
+    # start sets larger than any small-set threshold (64, 128): many direct dependants with triangles among them
+    cases = [fan_case(3, 3), fan_case(6, 2), cyc_case(3), cyc_case(6), mc.wide_case(ctx.rng, 66), mc.wide_case(ctx.rng, 131)]
     cases += [mc.gen_history(ctx.rng, ["mixed", "dag", "assign", "windows"][i % 4]) for i in range(ctx.pick(240, 4000))]
     # value types outside the model's domain (floats, numpy arrays, strings, None, ...): trace oracle only
     cases += [mc.gen_history(ctx.rng, ["mixed", "assign"][i % 2], values="mixed") for i in range(ctx.pick(60, 1000))]
@@ -70,10 +71,11 @@ def run(ctx):
     mism = mc.model_compare(ctx, cases, obs, "c02")
     fails = oracle(cases, obs)
     # long chains and other hash seeds: oracle only (the model is exercised above)
-    big = [mc.chain_case(ctx.pick(1500, 5000)), mc.chain_case(ctx.pick(1500, 5000), reverse=True)]
+    big = [mc.chain_case(ctx.pick(1500, 5000)), mc.chain_case(ctx.pick(1500, 5000), reverse=True),
+           mc.wide_case(ctx.rng, min(ctx.pick(300, 1500), 1500)), mc.wide_case(ctx.rng, min(ctx.pick(700, 3000), 3000))]
     bobs = mc.run_impl_cases(big, opts={"snapshots": False})
     fails += [(len(cases) + i, k, w) for i, k, w in oracle(big, bobs)]
-    for c, ol in zip(big, bobs):
+    for c, ol in zip(big[:2], bobs[:2]):
         last = ol[-1]
         if last["err"] is None and len(last["trace"]) != len(c["ops"]) - 1:
             fails.append((len(cases), len(c["ops"]) - 1, f"chain of {len(c['ops'])-1} dependants: {len(last['trace'])} tasks ran"))
